@@ -1,6 +1,6 @@
 #!/bin/bash
 # Runs every self-made mutation in /verif/selfmut against the check(s) named by its file name prefix.
-cd /verif
+cd "$(dirname "$0")/.."
 for f in selfmut/*.diff; do
   b=$(basename $f .diff)
   case $b in
